@@ -28,6 +28,8 @@ type Case struct {
 	// HeaderLate: a handler that reads the request stream sets its response
 	// headers only after receiving (still before its first Send / its return)
 	HeaderLate bool `json:"header_late,omitempty"`
+	// PlainErr: the failing handler returns a plain Go error (no code, no metadata)
+	PlainErr bool `json:"plain_err,omitempty"`
 }
 
 var keyNames = []string{"A", "B", "Trace-Id", "Long-Name-With-Dashes", "K9"}
@@ -37,6 +39,10 @@ func kvGen(t *rapid.T, prefix, label string) []prog.KV {
 	var kvs []prog.KV
 	for i := 0; i < nk; i++ {
 		k := prefix + rapid.SampledFrom(keyNames).Draw(t, label+"K")
+		if prefix == "X-Req-" && rapid.IntRange(0, 7).Draw(t, label+"OddReq") == 0 {
+			// request headers outside the reserved prefixes that merely resemble HTTP's own
+			k = rapid.SampledFrom([]string{"Accept-Language", "Content-Language", "Tea", "User-Agent-Extra", "Accept-Datetime"}).Draw(t, label+"OddReqK")
+		}
 		if prefix == "X-Res-" && rapid.IntRange(0, 7).Draw(t, label+"Odd") == 0 {
 			// legal application keys that merely look like something else: a
 			// key that begins with unary Connect's trailer carrier prefix, …
@@ -95,6 +101,7 @@ func gen(transports []string) func(t *rapid.T) Case {
 		c.Trailer = kvGen(t, "X-Res-", "trl")
 		if strings.HasPrefix(c.Outcome, "err") {
 			c.ErrMeta = kvGen(t, "X-Res-", "meta")
+			c.PlainErr = rapid.IntRange(0, 3).Draw(t, "plainErr") == 0
 		}
 		if c.Cfg.Kind == prog.Client || c.Cfg.Kind == prog.Bidi {
 			c.HeaderLate = rapid.Bool().Draw(t, "headerLate")
@@ -163,6 +170,11 @@ func check(tt *testing.T, c Case) (pbt.Info, error) {
 	}
 	if strings.HasPrefix(c.Outcome, "err") {
 		hp.Final = &prog.ErrSpec{Code: uint32(connect.CodeAborted), Msg: "nope", Meta: c.ErrMeta}
+		if c.PlainErr {
+			hp.Final = &prog.ErrSpec{Plain: true, Msg: "nope"}
+			c.ErrMeta = nil
+			info.Label("plain-go-error")
+		}
 	}
 	log := &prog.HLog{}
 	h := prog.NewHandler(c.Cfg.Kind, hp, log, c.Cfg.HandlerOptions()...)
@@ -261,7 +273,11 @@ func check(tt *testing.T, c Case) (pbt.Info, error) {
 		if res.Err == nil || res.CleanEnd {
 			return info, fmt.Errorf("%s: call did not fail", where)
 		}
-		if res.Err.Code != uint32(connect.CodeAborted) {
+		wantCode := uint32(connect.CodeAborted)
+		if c.PlainErr {
+			wantCode = uint32(connect.CodeUnknown)
+		}
+		if res.Err.Code != wantCode {
 			return info, fmt.Errorf("%s: wrong error %v", where, res.Err)
 		}
 		if err := prog.SubsequenceOf(prog.KVMap(c.ErrMeta), res.Err.Meta); err != nil {
